@@ -3,7 +3,7 @@
    placement rules, and every object the version and flow pipelines can emit satisfies them.
    The losslessness half (print / parse round trip through the `ron` crate and serde derive) is library behaviour that is
    modelled only on the printing side (Model/Ron.v); it is decided by differential execution (see DESIGN.md). *)
-From ZV Require Import Str Zerv SchemaSpec Bump Cli Flow Convert SchemaProofs.
+From ZV Require Import Str Zerv SchemaSpec Bump Cli Flow Convert SchemaProofs PipeIdentity.
 
 (* schema_validate (src/version/zerv/schema/validation.rs) accepts exactly the placement rules of the property *)
 Theorem c12_validation_is_placement : forall s, schema_validate s = true <-> Placement s.
@@ -37,7 +37,40 @@ Proof. vm_compute. reflexivity. Qed.
 Example c12_ex_dup : schema_validate {| s_core := [CVar Major]; s_extra := [CVar Post; CVar Post]; s_build := []; s_prec := [] |} = false.
 Proof. vm_compute. reflexivity. Qed.
 
+(* THE PIPE: the object emitted by any `zerv version` / `zerv flow` run, fed to `zerv version --source stdin` with no other argument, comes
+   out UNCHANGED (same clock value; with another clock value only bumped_timestamp of a dirty object moves, C14) - so the zerv document is
+   re-emitted identically and the semver / pep440 rendering of the second process is the rendering the first one would have printed.
+   (What travels between the two processes is RON text: printer and parser of the ron crate, decided by the correspondence runs.) *)
+Theorem c12_version_pipe_identity : forall a stdin now z f, version_zerv a stdin now = OOk z -> version_zerv (plain_stdin f) (Some (Some z)) now = OOk z.
+Proof. exact version_pipe_identity. Qed.
+Theorem c12_flow_pipe_identity : forall fa stdin now z f, flow_zerv fa stdin now = OOk z -> version_zerv (plain_stdin f) (Some (Some z)) now = OOk z.
+Proof. exact flow_pipe_identity. Qed.
+Theorem c12_pipe_semver : forall a stdin now z, version_zerv a stdin now = OOk z ->
+  version_output (plain_stdin OutSemver) (Some (Some z)) now = OOk (semver_print (semver_of_zerv z)).
+Proof. exact version_pipe_semver. Qed.
+Theorem c12_pipe_pep440 : forall a stdin now z p, version_zerv a stdin now = OOk z -> pep_of_zerv z = Some p ->
+  version_output (plain_stdin OutPep440) (Some (Some z)) now = OOk (pep_print p).
+Proof. exact version_pipe_pep440. Qed.
+Theorem c12_pipe_reemits : forall a stdin now z, version_zerv a stdin now = OOk z ->
+  version_output (plain_stdin OutZerv) (Some (Some z)) now = OOk (zerv_ron z).
+Proof. exact version_pipe_reemits. Qed.
+
+(* REFUSAL: an object whose schema violates the placement rules is never rendered when it is the schema in effect; a stdin document that
+   does not deserialize to a Zerv object is refused *)
+Theorem c12_invalid_schema_refused : forall a z now t, g_schema a = None -> g_schema_ron a = None -> schema_validate (z_schema z) = false ->
+  (g_source a = Some SrcStdin \/ g_source a = None) -> version_output a (Some (Some z)) now <> OOk t.
+Proof. exact invalid_schema_refused. Qed.
+Theorem c12_not_a_document_refused : forall a now t, (g_source a = Some SrcStdin \/ g_source a = None) -> version_output a (Some None) now <> OOk t.
+Proof. exact not_a_document_refused. Qed.
+
 Print Assumptions c12_validation_is_placement.
 Print Assumptions c12_version_emits_valid.
 Print Assumptions c12_flow_emits_valid.
 Print Assumptions c12_processing_preserves.
+Print Assumptions c12_version_pipe_identity.
+Print Assumptions c12_flow_pipe_identity.
+Print Assumptions c12_pipe_semver.
+Print Assumptions c12_pipe_pep440.
+Print Assumptions c12_pipe_reemits.
+Print Assumptions c12_invalid_schema_refused.
+Print Assumptions c12_not_a_document_refused.
